@@ -1425,7 +1425,11 @@ where
         self.pingreq_keep_alive_ms = 0;
         self.pingreq_server_keep_alive_ms = None;
         self.pingreq_recv_timeout_ms = 0;
-        // What the session holds at this point is "the session before this CONNECT"
+        self.snapshot_session_before_connect();
+    }
+
+    /// What the session holds at this point is "the session before this CONNECT"
+    fn snapshot_session_before_connect(&mut self) {
         self.ids_before_connect = self
             .pid_puback
             .iter()
@@ -1434,6 +1438,16 @@ where
             .copied()
             .collect();
         self.handled_before_connect = self.qos2_publish_handled.clone();
+    }
+
+    /// A CONNACK is also processed when no CONNECT was sent on this connection. Nothing the
+    /// previous connection left behind may then decide about it: the session held at this
+    /// point is the one the CONNACK's Session Present flag refers to, and the side that sent
+    /// the previous CONNECT is not remembered.
+    fn begin_connection_without_connect(&mut self) {
+        self.is_client = false;
+        self.new_session_at_connect = false;
+        self.snapshot_session_before_connect();
     }
 
     fn clear_store_related(&mut self) {
@@ -3114,11 +3128,19 @@ where
         match v3_1_1::Connack::parse(raw_packet.data_as_slice()) {
             Ok((packet, _consumed)) => {
                 if packet.return_code() == ConnectReturnCode::Accepted {
+                    let without_connect = self.status == ConnectionStatus::Disconnected;
+                    if without_connect {
+                        self.begin_connection_without_connect();
+                    }
                     self.status = ConnectionStatus::Connected;
                     self.established = true;
                     if !(packet.session_present() || self.new_session_at_connect) {
                         // Session not present: the session as it was before the CONNECT is gone
                         self.discard_session_before_connect();
+                        if without_connect {
+                            // (nothing asked for the new session to be kept)
+                            self.need_store = false;
+                        }
                     }
                     self.ids_before_connect.clear();
                     self.handled_before_connect.clear();
@@ -3165,6 +3187,10 @@ where
         match v5_0::Connack::parse(raw_packet.data_as_slice()) {
             Ok((packet, _consumed)) => {
                 if packet.reason_code() == ConnectReasonCode::Success {
+                    let without_connect = self.status == ConnectionStatus::Disconnected;
+                    if without_connect {
+                        self.begin_connection_without_connect();
+                    }
                     self.status = ConnectionStatus::Connected;
                     self.established = true;
 
@@ -3229,6 +3255,10 @@ where
                     if !(packet.session_present() || self.new_session_at_connect) {
                         // Session not present: the session as it was before the CONNECT is gone
                         self.discard_session_before_connect();
+                        if without_connect {
+                            // (nothing asked for the new session to be kept)
+                            self.need_store = false;
+                        }
                     }
                     self.ids_before_connect.clear();
                     self.handled_before_connect.clear();
